@@ -88,7 +88,7 @@ for i in ids:
         })
 na = [{'property_id': i, 'reason': NOT_APPLICABLE.get(i, 'check not built yet in this revision of /verif (planned: DESIGN §4); no claim is made')} for i in ids if i not in CHECKS]
 
-hooks_commits = subprocess.run(['git', '-C', '/repo', 'log', '--format=%H', '--grep=^verif hooks'], capture_output=True, text=True).stdout.split()
+hooks_commits = subprocess.run(['git', '-C', '/repo', 'log', '--format=%H', '--grep=^verif hook'], capture_output=True, text=True).stdout.split()
 manifest = {
  'version': 1,
  'setup_cmd': './setup.sh',
